@@ -78,7 +78,7 @@ CHECKS["C15"] = dict(
 
 _c07_windows = [(90000, 0), (90000, 999999000), (90000, 47721858000000), (48000, 3600000000000), (8000, 536870911000000)]
 CHECKS["C07"] = dict(
-    jobs=[dict(pkg="pkg/report", entry="HC07Step"), dict(pkg="pkg/report", entry="HC07Interceptor", require_covers=["tick reported"], no_native=True)] +
+    jobs=[dict(pkg="pkg/report", entry="HC07Step", require_covers=["first packet ever", "first packet of a frame", "out of order"]), dict(pkg="pkg/report", entry="HC07Interceptor", require_covers=["tick reported"], no_native=True)] +
          [dict(pkg="pkg/report", entry="HC07Report", params=dict(rate=r, elbase=b, elbits=20)) for (r, b) in _c07_windows],
     bounds=dict(quick="processRTP: one step from ANY stream state (counts, reference, sequence) with any header, payload length 0..1460, both use-latest-packet settings (inductive: any history). Report formula: elapsed time = window base + [0,2^20) ns for 5 (clock rate, base) windows incl. the 2^32-tick wrap at 90 kHz, compared with the integer reference floor(elapsed*rate/1e9) within one tick. Interceptor level: two local streams (90 kHz / 48 kHz), two rounds of two writes on symbolically chosen streams with symbolic payload lengths and timestamps, a tick after each round: one SR per stream per tick with that stream's own packet/octet counts and the report instant as NTP time",
                 thorough="same"),
